@@ -1956,21 +1956,31 @@ def gen_section(rng, tier, i):
             "add_missing": rng.random() < 0.85, "allow_invalid": rng.random() < 0.08}
 
 
-def perkey_outcomes(cv, merged, source_t, add_missing):
+def perkey_outcomes(cv, merged, source_t, add_missing, allow_invalid):
     """The property's reading of a section validation, computed WITHOUT build_spec: every key is validated against
     the entry the section itself declares (base specs only contribute keys the section does not declare).
-    merged: independent merge (merged_spec_py) of the specs as they were BEFORE the call."""
+    merged: independent merge (merged_spec_py) of the specs as they were BEFORE the call.
+    allow_invalid: `mpf: allow_invalid_config_sections` is a MACHINE-wide setting that check_for_invalid_sections reads
+    at every nesting depth (subconfig values, nested sub-sections): the per-key re-validation has to run under the same
+    setting as the validation it is compared with, else an unknown key inside a sub-config that the caller asked to
+    tolerate is reported as `declared-spec-not-applied` (soak seed 12, corpus section.7)."""
     from mpf.core.config_validator import ValidationPath
     vfi = ValidationPath(ValidationPath(None, "sec"), "key")
     src = untag(source_t) if source_t[0] == "d" else {}
     res = {}
-    for k, e in merged.items():
-        if e[0] != "item" or k.startswith("_") or k == "":
-            continue
-        if k in src:
-            res[k] = _outcome(cv.validate_config_item, list(e[1:]), vfi, src[k])
-        elif add_missing:
-            res[k] = _outcome(cv.validate_config_item, list(e[1:]), vfi)
+    mpf_cfg = cv.machine.config["mpf"]
+    old = mpf_cfg["allow_invalid_config_sections"]
+    mpf_cfg["allow_invalid_config_sections"] = bool(allow_invalid)
+    try:
+        for k, e in merged.items():
+            if e[0] != "item" or k.startswith("_") or k == "":
+                continue
+            if k in src:
+                res[k] = _outcome(cv.validate_config_item, list(e[1:]), vfi, src[k])
+            elif add_missing:
+                res[k] = _outcome(cv.validate_config_item, list(e[1:]), vfi)
+    finally:
+        mpf_cfg["allow_invalid_config_sections"] = old
     return res
 
 
@@ -2009,7 +2019,7 @@ def run_section(case):
         out["built"] = enc_spec(cv.build_spec(names[0], base_arg))
     except Exception as e:    # noqa
         out["built"] = None
-    out["perkey"] = perkey_outcomes(cv, expected, case["source"], case["add_missing"])
+    out["perkey"] = perkey_outcomes(cv, expected, case["source"], case["add_missing"], case["allow_invalid"])
     if "real" in case:
         out["spec_seen"] = spec_seen
         if out["spec_changed"] is False:
@@ -2269,7 +2279,7 @@ def run_store(case):
             if all(n in sd for n in nm):
                 expected = merged_spec_py([enc for n in nm for (n2, enc) in case["store"] if n2 == n])
                 out["merged"] = [[k, e] for k, e in expected.items()]
-                out["perkey"] = perkey_outcomes(cv, expected, st["source"], st["add_missing"])
+                out["perkey"] = perkey_outcomes(cv, expected, st["source"], st["add_missing"], case["allow_invalid"])
             else:
                 out["merged"] = None
             outs.append(out)
